@@ -35,8 +35,11 @@ JSON_OPTS = [(["-j"], "j:t"), (["--json"], "j:t"), (["--json=false"], "j:f"), ([
 PROG_OPTS = [(["--progress"], "p:t"), (["--no-progress"], "np:t"), (["--progress=false"], "p:f"), (["--no-progress=false"], "np:f"),
              (["--progress=zz"], "p:b")]
 CFG = {
-    "threshold": [(None, "u"), ("0", "0.0"), ("30", "30.0"), ("2.5", "2.5"), ("many", "bad"), ("", "bad")],
-    "names": [(None, "u"), ("none", "none"), ("hash", "hash"), ("sha1", "hash"), ("full", "full"), ("x", "bad")],
+    # a valid value with white space around it is not that value: the same string is refused on the command line
+    "threshold": [(None, "u"), ("0", "0.0"), ("30", "30.0"), ("2.5", "2.5"), ("many", "bad"), ("", "bad"), (" 1", "bad"), ("30 ", "bad"),
+                  ("0\n", "bad")],
+    "names": [(None, "u"), ("none", "none"), ("hash", "hash"), ("sha1", "hash"), ("full", "full"), ("x", "bad"), ("full ", "bad"),
+              ("\tnone", "bad"), ("hash\n", "bad")],
     "jsonVersion": [(None, "u"), ("1", "1"), ("2", "2"), ("3", "3"), ("two", "fail")],
     "progress": [(None, "u"), ("true", "t"), ("false", "f"), ("yes", "t"), ("perhaps", "fail")],
 }
